@@ -53,14 +53,16 @@ Definition p_rnum := altp (digits 1) (seqp (chr 37%N) (fun s => match s with
     | a :: [] => {| hit_end := is_digit a; rests := [] |}
     | a :: b :: r => if is_digit a && is_digit b then {| hit_end := false; rests := [r] |} else fail end)).
 
-(* closure of a set of states under one more item *)
-Fixpoint star (fuel : nat) (item : list char -> pres) (states : list (list char)) (hit : bool) : pres :=
+(* closure of a set of states under one more item: only the frontier (states found in the previous round) is expanded *)
+Fixpoint star (fuel : nat) (item : list char -> pres) (seen frontier : list (list char)) (hit : bool) : pres :=
   match fuel with
-  | 0 => {| hit_end := hit; rests := states |}
-  | S f => let rs := map item states in
-           let news := filter (fun x => negb (existsb (fun y => Nat.eqb (List.length y) (List.length x)) states)) (dedup (flat_map rests rs)) in
-           let hit' := hit || existsb hit_end rs in
-           match news with [] => {| hit_end := hit'; rests := states |} | _ => star f item (states ++ news) hit' end
+  | 0 => {| hit_end := hit; rests := seen |}
+  | S f => match frontier with
+           | [] => {| hit_end := hit; rests := seen |}
+           | _ => let rs := map item frontier in
+                  let news := filter (fun x => negb (existsb (fun y => Nat.eqb (List.length y) (List.length x)) seen)) (dedup (flat_map rests rs)) in
+                  star f item (seen ++ news) news (hit || existsb hit_end rs)
+           end
   end.
 Fixpoint p_X (fuel : nat) (s : list char) : pres :=
   match fuel with
@@ -69,7 +71,7 @@ Fixpoint p_X (fuel : nat) (s : list char) : pres :=
       let branch := seqp (chr 40%N) (seqp (altp (chr 46%N) (optp p_bond)) (seqp (p_X f) (chr 41%N))) in
       let item := altp branch (altp (seqp (chr 46%N) p_atom) (seqp (optp p_bond) (altp p_atom p_rnum))) in
       let a := p_atom s in
-      let r := star (S (List.length s)) item (rests a) false in
+      let r := star (S (List.length s)) item (rests a) (rests a) false in
       {| hit_end := hit_end a || hit_end r; rests := rests r |}
   end.
 Definition parse (s : list char) : pres := p_X (S (List.length s)) s.
